@@ -20,7 +20,7 @@
 (* with Legacy = TRUE it is the code as found (shortcut, regeneration with *)
 (* an empty NFVS, tie-break, limit 0) and TLC refutes Covers.              *)
 (***************************************************************************)
-EXTENDS BoolNet, Integers, FiniteSetsExt, Json, IOUtils
+EXTENDS Cand, Json, IOUtils
 
 CONSTANTS NetMode,       \* "all2" | "file"
           CandLims,      \* values of attractor_candidates_limit
@@ -28,123 +28,58 @@ CONSTANTS NetMode,       \* "all2" | "file"
           Budgets,       \* values of minimum_simulation_budget (abstract units)
           Legacy         \* TRUE: the code before the C08 fixes
 
-VARIABLES S, sp, av, pm, U, greedy, sim, candlim, rsthr, budget,   \* inputs
-          R, C, complete, pc, todo, iters, result                 \* pipeline state
-vars == <<S, sp, av, pm, U, greedy, sim, candlim, rsthr, budget, R, C, complete, pc, todo, iters, result>>
+\* S: semantic table of the network; q: the inputs of the run; p: the pipeline state (see Cand.tla)
+VARIABLES S, q, p
+vars == <<S, q, p>>
 
 AllNets2 == LET TT == [1..4 -> {0, 1}] IN {[n |-> 2, f |-> <<a, b>>] : a \in TT, b \in TT}
 FileNets == IF NetMode = "file" THEN ndJsonDeserialize(IF "CATALOGUE" \in DOMAIN IOEnv THEN IOEnv.CATALOGUE ELSE "catalogue.ndjson") ELSE <<>>
 Nets == IF NetMode = "all2" THEN AllNets2 ELSE {FileNets[i].net : i \in DOMAIN FileNets}
 
-nt == S.nt
-NoR == AllFree(nt)
-Fix(r) == ReducedFP(nt, r, sp, av)
-\* a solver call with solution limit L (-1 = none): any subset of the solutions of the right size
-Solve(r, L) == IF L = -1 THEN {Fix(r)}
-               ELSE LET n == Cardinality(Fix(r))
-                        k == IF Legacy /\ L = 0 THEN (IF n = 0 THEN 0 ELSE 1) ELSE (IF n < L THEN n ELSE L)
-                    IN {X \in SUBSET Fix(r) : Cardinality(X) = k}
-Assignments(W) == {r \in Spaces(nt) : \A i \in V(nt) : (r[i] # 2) <=> (i \in W)}
-Own == {A \in S.attr : (\A s \in A : In(s, sp)) /\ ~\E a \in av : \A s \in A : In(s, a)}
-CoversOwn(X) == \A A \in Own : A \cap X # {}
-
 Init == /\ \E net \in Nets : S = SemOf(net)
-        /\ sp \in S.diag
-        /\ \E expanded \in BOOLEAN : av = IF expanded THEN {S.ms[sp][k] : k \in DOMAIN S.ms[sp]} ELSE {}
-        /\ pm = (av = {})
-        /\ U \in {W \in SUBSET FreeV(sp) : IsNFVS(nt, W, sp)}
-        /\ greedy \in BOOLEAN /\ sim \in BOOLEAN
-        /\ candlim \in CandLims /\ rsthr \in Thresholds /\ budget \in Budgets
-        /\ R = NoR /\ C = {} /\ complete = TRUE /\ pc = "begin" /\ todo = {} /\ iters = 1 /\ result = "none"
+        /\ \E sp \in S.diag, expanded \in BOOLEAN, greedy \in BOOLEAN, sim \in BOOLEAN,
+              candlim \in CandLims, rsthr \in Thresholds, budget \in Budgets :
+              LET av == IF expanded THEN {S.ms[sp][k] : k \in DOMAIN S.ms[sp]} ELSE {} IN
+              \E U \in {W \in SUBSET FreeV(sp) : IsNFVS(S.nt, W, sp)} :
+                 q = [sp |-> sp, av |-> av, pm |-> (av = {}), U |-> U, greedy |-> greedy, sim |-> sim,
+                      candlim |-> candlim, rsthr |-> rsthr, budget |-> budget]
+        /\ p = P0(S)
 
-Go(p) == pc' = p
-Keep == UNCHANGED <<S, sp, av, pm, U, greedy, sim, candlim, rsthr, budget>>
-Done(r) == /\ pc' = "done" /\ result' = r /\ Keep
-Raise == /\ pc' = "done" /\ result' = "error" /\ C' = {} /\ UNCHANGED <<R, complete, todo, iters>> /\ Keep
+Keep == UNCHANGED <<S, q>>
 
-Begin == /\ pc = "begin"
-         /\ IF IsState(sp) THEN /\ C' = {StateOf(sp)} /\ Done("ok") /\ UNCHANGED <<R, complete, todo, iters>>
-            ELSE IF U = {} /\ ~pm THEN /\ C' = {} /\ Done("ok") /\ UNCHANGED <<R, complete, todo, iters>>
-            ELSE /\ \E r \in Assignments(U) : R' = r              \* make_heuristic_retained_set: any values
-                 /\ Go("first") /\ UNCHANGED <<C, complete, todo, iters, result>> /\ Keep
+Begin == /\ p.pc = "begin" /\ Keep
+         /\ IF BeginEarly(q) THEN p' = BeginF(S, q, p, NoR(S))
+            ELSE \E r \in Assignments(S, q.U) : p' = BeginF(S, q, p, r)        \* make_heuristic_retained_set: any values
 
-\* the legacy shortcut: a retained set fixing every variable of an unexpanded root
-Shortcut == /\ Legacy /\ pc = "first" /\ pm /\ \A i \in V(nt) : R[i] # 2
-            /\ C' = {StateOf(R)} /\ Done("ok") /\ UNCHANGED <<R, complete, todo, iters>>
+Shortcut == /\ p.pc = "first" /\ ShortcutOn(S, q, p, Legacy) /\ Keep
+            /\ p' = ShortcutF(p)
 
-First == /\ pc = "first"
-         /\ ~(Legacy /\ pm /\ \A i \in V(nt) : R[i] # 2)
-         /\ IF ~greedy THEN
-               \E X \in Solve(R, candlim) :
-                  IF Cardinality(X) = candlim THEN Raise
-                  ELSE /\ C' = X /\ complete' = (X = Fix(R)) /\ Go("postasp") /\ UNCHANGED <<R, todo, iters, result>> /\ Keep
-            ELSE \E X \in Solve(R, rsthr) :
-                  IF Cardinality(X) < rsthr THEN
-                      /\ C' = X /\ complete' = (X = Fix(R)) /\ UNCHANGED <<R, todo, iters, result>> /\ Keep
-                      /\ Go(IF Cardinality(X) > 1 \/ (~pm /\ Cardinality(X) > 0) THEN "greedy_then_postasp" ELSE "postasp")
-                  ELSE /\ R' = NoR /\ C' = {} /\ complete' = TRUE /\ todo' = U /\ Go("regen0")
-                       /\ UNCHANGED <<iters, result>> /\ Keep
+First == /\ p.pc = "first" /\ ~ShortcutOn(S, q, p, Legacy) /\ Keep
+         /\ \E X \in Solve(S, q, p.R, FirstLimit(q), Legacy) : p' = FirstF(S, q, p, X)
 
 \* asp_greedy_retained_set_optimization: any sequence of improving flips; it may stop at any time
-GreedyPc == pc \in {"greedy_then_postasp", "greedy_then_regen"}
-AfterGreedy == IF pc = "greedy_then_postasp" THEN "postasp" ELSE "regen"
-GreedyFlip == /\ GreedyPc
-              /\ C # {} /\ ~(av = {} /\ Cardinality(C) = 1)
-              /\ \E v \in Fixed(R) :
-                    LET r2 == [R EXCEPT ![v] = 1 - R[v]] IN
-                    \E X \in Solve(r2, Cardinality(C)) :
-                        /\ Cardinality(X) < Cardinality(C)
-                        /\ R' = r2 /\ C' = X /\ complete' = (X = Fix(r2))
-              /\ UNCHANGED <<pc, todo, iters, result>> /\ Keep
-GreedyStop == /\ GreedyPc /\ Go(AfterGreedy) /\ UNCHANGED <<R, C, complete, todo, iters, result>> /\ Keep
+GreedyFlip == /\ GreedyPc(p) /\ GreedyMayTry(q, p) /\ Keep
+              /\ \E v \in Fixed(p.R) :
+                    \E X \in Solve(S, q, FlipOf(p, v), Cardinality(p.C), Legacy) :
+                        /\ Cardinality(X) < Cardinality(p.C)
+                        /\ p' = GreedyFlipF(S, q, p, v, X)
+GreedyStop == /\ GreedyPc(p) /\ Keep /\ p' = GreedyStopF(p)
 
 \* regeneration of the retained set, one NFVS variable per iteration (any order)
-Regen0 == /\ pc = "regen0"
-          /\ IF U = {} /\ ~Legacy THEN
-                \E X \in Solve(NoR, candlim) :
-                    IF Cardinality(X) = candlim THEN Raise
-                    ELSE /\ C' = X /\ complete' = (X = Fix(NoR)) /\ Go("regen") /\ UNCHANGED <<R, todo, iters, result>> /\ Keep
-             ELSE /\ Go("regen") /\ UNCHANGED <<R, C, complete, todo, iters, result>> /\ Keep
-Regen == /\ pc = "regen"
-         /\ IF todo = {} THEN /\ Go("postasp") /\ UNCHANGED <<R, C, complete, todo, iters, result>> /\ Keep
-            ELSE \E v \in todo :
-                 LET r0 == [R EXCEPT ![v] = 0]
-                     r1 == [R EXCEPT ![v] = 1] IN
-                 \E Z \in Solve(r0, candlim) :
-                    IF Cardinality(Z) <= Cardinality(C) /\ (Legacy \/ Cardinality(Z) < candlim) THEN
-                        /\ R' = r0 /\ C' = Z /\ complete' = (Z = Fix(r0)) /\ todo' = todo \ {v}
-                        /\ UNCHANGED <<pc, iters, result>> /\ Keep
-                    ELSE \E O \in Solve(r1, Cardinality(Z)) :
-                        IF Cardinality(Z) = candlim /\ Cardinality(O) = candlim THEN Raise
-                        ELSE IF Cardinality(O) <= Cardinality(C) THEN
-                            /\ R' = r1 /\ C' = O /\ complete' = (O = Fix(r1)) /\ todo' = todo \ {v}
-                            /\ UNCHANGED <<pc, iters, result>> /\ Keep
-                        ELSE LET zero == IF Legacy THEN Cardinality(Z) < Cardinality(O) ELSE Cardinality(Z) <= Cardinality(O)
-                                 rr == IF zero THEN r0 ELSE r1
-                                 cc == IF zero THEN Z ELSE O IN
-                             /\ R' = rr /\ C' = cc /\ complete' = (cc = Fix(rr)) /\ todo' = todo \ {v}
-                             /\ Go(IF Cardinality(cc) > rsthr THEN "greedy_then_regen" ELSE "regen")
-                             /\ UNCHANGED <<iters, result>> /\ Keep
+Regen0 == /\ p.pc = "regen0" /\ Keep
+          /\ IF Regen0Solves(q, Legacy) THEN \E X \in Solve(S, q, NoR(S), q.candlim, Legacy) : p' = Regen0F(S, q, p, X, Legacy)
+             ELSE p' = Regen0F(S, q, p, {}, Legacy)
+Regen == /\ p.pc = "regen" /\ Keep
+         /\ IF p.todo = {} THEN p' = RegenDoneF(p)
+            ELSE \E v \in p.todo :
+                 \E Z \in Solve(S, q, R0(p, v), q.candlim, Legacy) :
+                    IF ZeroWins(q, p, Z, Legacy) THEN p' = RegenF(S, q, p, v, Z, {}, Legacy)
+                    ELSE \E O \in Solve(S, q, R1(p, v), Cardinality(Z), Legacy) : p' = RegenF(S, q, p, v, Z, O, Legacy)
 
-PostAsp == /\ pc = "postasp"
-           /\ IF C = {} \/ (pm /\ Cardinality(C) = 1) \/ ~sim THEN Done("ok") /\ UNCHANGED <<R, C, complete, todo, iters>>
-              ELSE /\ Go("sim") /\ iters' = 1 /\ UNCHANGED <<R, C, complete, todo, result>> /\ Keep
+PostAsp == /\ p.pc = "postasp" /\ Keep /\ p' = PostAspF(q, p)
 
-\* one simulation round: the candidates move along transitions, may merge, and are dropped when they reach another
-\* candidate or an avoided space.  Any outcome of that kind; it never loses the last candidate of an own attractor.
-SimOutcomes ==
-    LET reach == UNION {S.reach[c] : c \in C} IN
-    {X \in SUBSET reach :
-        /\ Cardinality(X) <= Cardinality(C)
-        /\ \A A \in Own : (A \cap C # {}) => (A \cap X # {})}
-Sim == /\ pc = "sim"
-       /\ \E X \in SimOutcomes :
-            /\ C' = X
-            /\ IF X = {} THEN Done("ok") /\ UNCHANGED <<R, complete, todo, iters>>
-               ELSE IF Cardinality(X) = Cardinality(C) /\ iters * Cardinality(X) > budget
-                    THEN Done("ok") /\ UNCHANGED <<R, complete, todo, iters>>
-               ELSE IF Cardinality(X) = 1 /\ av = {} THEN Done("ok") /\ UNCHANGED <<R, complete, todo>> /\ iters' = 2 * iters
-               ELSE /\ iters' = 2 * iters /\ UNCHANGED <<R, complete, todo, pc, result>> /\ Keep
+Sim == /\ p.pc = "sim" /\ Keep
+       /\ \E X \in SimOutcomes(S, q, p) : p' = SimF(q, p, X)
 
 Next == Begin \/ Shortcut \/ First \/ GreedyFlip \/ GreedyStop \/ Regen0 \/ Regen \/ PostAsp \/ Sim
 Spec == Init /\ [][Next]_vars /\ WF_vars(Next)
@@ -152,15 +87,15 @@ Spec == Init /\ [][Next]_vars /\ WF_vars(Next)
 (***************************************************************************)
 (* Properties                                                              *)
 (***************************************************************************)
-TypeOK == pc \in {"begin", "first", "greedy_then_postasp", "greedy_then_regen", "regen0", "regen", "postasp", "sim", "done"}
+TypeOK == p.pc \in PcSet
 \* C08: a returned list covers every own attractor and consists of states of the node; an error returns nothing
-Inv_Covers == (pc = "done" /\ result = "ok") => (CoversOwn(C) /\ \A s \in C : In(s, sp))
-Inv_Error  == (pc = "done" /\ result = "error") => C = {}
+Inv_Covers == (p.pc = "done" /\ p.result = "ok") => (CoversOwn(S, q, p.C) /\ \A s \in p.C : In(s, q.sp))
+Inv_Error  == (p.pc = "done" /\ p.result = "error") => p.C = {}
 \* the mechanism: whenever the pipeline leaves the ASP stage, its list is the complete fixed-point set of a retained
 \* set that assigns exactly the NFVS (so the NFVS theorem T_NFVS applies)
-Inv_Mechanism == (pc \in {"postasp", "sim"} /\ pc # "sim") => (complete /\ Fixed(R) = U)
+Inv_Mechanism == (p.pc = "postasp") => (p.complete /\ Fixed(p.R) = q.U)
 \* C13: the pipeline terminates (the simulation loop doubles its iteration count until the budget is exceeded)
-Termination == <>(pc = "done")
+Termination == <>(p.pc = "done")
 \* state constraint for the liveness run: the iteration counter is bounded by what the budget can require
-IterBound == iters <= 4 * (CHOOSE b \in Budgets : \A c \in Budgets : c <= b) + 4
+IterBound == p.iters <= 4 * (CHOOSE b \in Budgets : \A c \in Budgets : c <= b) + 4
 =============================================================================
